@@ -264,6 +264,16 @@ def make_env(ctx):
         kinds = sorted(set(k for k, _ in cands))
         kind = rng.choice(kinds)
         kind, tgt = rng.choice([cd for cd in cands if cd[0] == kind])
+        todo = [(kind, tgt)]
+        if rng.random() < 0.5:
+            # the length test of EVERY buffer argument (each wrapper has one hand-written test per buffer and per option
+            # value; a single random target per call leaves most (function, option, buffer) triples unvisited)
+            todo += [cd for cd in cands if cd[0] == "short" and cd != (kind, tgt)]
+            ctx.count("mut.short-sweep")
+        for kind, tgt in todo:
+            _run_invalid(c, fname, args, kw, blks, kind, tgt)
+
+    def _run_invalid(c, fname, args, kw, blks, kind, tgt):
         copies = {id(b): _clone(b) for b in blks}
         kw2 = dict(kw)
         if kind == "short":
